@@ -41,6 +41,10 @@ class FakeTransport(asyncio.Transport):
 
     def write(self, data):
         self.conn.on_write(bytes(data))
+        # back-pressure: while the peer is not reading, the protocol is told to pause after every write
+        if self.conn.stalled and self.conn.protocol is not None and not self.conn.paused:
+            self.conn.paused = True
+            self.conn.protocol.pause_writing()
 
     def is_closing(self):
         return self._closing
@@ -84,6 +88,14 @@ class Conn:
         self.writes = []            # every write() call, verbatim
         self.pdus = []              # framed by an independent framer
         self.bound = False
+        self.stalled = False        # the peer does not read: drain() suspends
+        self.paused = False
+
+    def stall(self, on):
+        self.stalled = on
+        if not on and self.paused and self.protocol is not None:
+            self.paused = False
+            self.protocol.resume_writing()
 
     def on_write(self, data):
         t = self.smsc.loop.time()
